@@ -38,10 +38,17 @@ type c04Case struct {
 	Fwd      bool     `json:"initial_forwarding"`
 	Probe    bool     `json:"probe_after_every_event"`
 	Events   []string `json:"events"`
+	// Reorder: the configuration lists the interfaces as eth2, eth1, eth0 (not in name
+	// order; the advertising interface under test last).
+	Reorder bool `json:"interfaces_listed_in_reverse,omitempty"`
 }
 
 func (c c04Case) String() string {
-	return fmt.Sprintf("life=%q fwd=%t probe=%t [%s]", c.Lifetime, c.Fwd, c.Probe, strings.Join(c.Events, " "))
+	o := ""
+	if c.Reorder {
+		o = " reversed-config"
+	}
+	return fmt.Sprintf("life=%q fwd=%t probe=%t%s [%s]", c.Lifetime, c.Fwd, c.Probe, o, strings.Join(c.Events, " "))
 }
 
 func c04Doc(c c04Case) ref.Doc {
@@ -49,12 +56,16 @@ func c04Doc(c c04Case) ref.Doc {
 	if c.Lifetime != "" {
 		s["default_lifetime"] = c.Lifetime
 	}
-	return ref.Doc{Ifaces: []ref.Iface{
+	d := ref.Doc{Ifaces: []ref.Iface{
 		{Scalars: s, Prefix: []ref.Table{{"prefix": "2001:db8:1::/64"}}, RDNSS: []ref.Table{{"servers": []string{"2001:db8::53"}}},
 			DNSSL: []ref.Table{{"domain_names": []string{"LAN.Example.COM", "b.example"}}}},
 		{Scalars: ref.Table{"name": "eth1", "advertise": true, "default_lifetime": "100s", "max_interval": "50s"}},
 		{Scalars: ref.Table{"name": "eth2", "monitor": true}},
 	}}
+	if c.Reorder {
+		d.Ifaces[0], d.Ifaces[2] = d.Ifaces[2], d.Ifaces[0]
+	}
+	return d
 }
 
 type c04Result struct {
@@ -76,14 +87,18 @@ func c04Run(t *testing.T, c c04Case) (x *vsched.Exec, out [][2]string) {
 	if err != nil {
 		return nil, [][2]string{{"C04:config-rejected", err.Error()}}
 	}
-	configured := wantCfg.Interfaces[0].DefaultLifetime
+	i0 := 0 // position of eth0, the advertising interface under test
+	if c.Reorder {
+		i0 = 2
+	}
+	configured := wantCfg.Interfaces[i0].DefaultLifetime
 
 	sc := &vsched.Scenario{
 		Name:    "c04",
 		Horizon: 10 * time.Minute,
 		Setup: func(x *vsched.Exec) {
 			// Metrics and API over the SAME config.Interface values, as main.go does.
-			a := newAdvWorldIfis(cfg.Interfaces[0], cfg.Interfaces, c.Fwd, false)
+			a := newAdvWorldIfis(cfg.Interfaces[i0], cfg.Interfaces, c.Fwd, false)
 			w := a.world
 			w.st.fwd["eth1"], w.st.fwd["eth2"] = !c.Fwd, c.Fwd
 			mm := w.mm
@@ -92,7 +107,7 @@ func c04Run(t *testing.T, c c04Case) (x *vsched.Exec, out [][2]string) {
 			conn := 0 // the connection whose RA is being judged (every re-dial sees another MAC)
 			expectRA := func(forwarding bool, final bool) *ndp.RouterAdvertisement {
 				st := ref.State{Name: "eth0", MAC: w.macOf(conn).String(), Forwarding: forwarding}
-				ifi := wantCfg.Interfaces[0]
+				ifi := wantCfg.Interfaces[i0]
 				if final {
 					ifi.DefaultLifetime = 0
 				}
@@ -316,7 +331,7 @@ func c04Run(t *testing.T, c c04Case) (x *vsched.Exec, out [][2]string) {
 func TestVerifC04(t *testing.T) {
 	r := ev.Begin("C04", "histories")
 	defer r.End(t)
-	r.Rule = "histories = all sequences of <=K events over {flip forwarding, periodic tick, unicast RS, RS from ::, RA from another router, forwarding sysctl becomes unreadable (ends the history)} followed by termination, x default_lifetime {auto, 0s, 1234s} x initial forwarding {on, off} x {metrics+API probed after every event, only at the end}, on the real Advertiser.Run (min=max=4s, virtual clock, canonical schedule) with Metrics and the debug API handler built over the same config.Interface values plus a second advertising and a monitoring interface; oracle: every transmitted RA deep-equals the reference RA for the forwarding state at that moment (lifetime 0 when off, final RA 0), log line count = overridden generations, forwarding and misconfiguration gauges and API router_lifetime_seconds track the state per interface; non-trivial = history contains a flip or starts non-forwarding; distinct = distinct case"
+	r.Rule = "histories = all sequences of <=K events over {flip forwarding, periodic tick, unicast RS, RS from ::, RA from another router, forwarding sysctl becomes unreadable (ends the history)} followed by termination, x default_lifetime {auto, 0s, 1234s} x initial forwarding {on, off} x {metrics+API probed after every event, only at the end}, on the real Advertiser.Run (min=max=4s, virtual clock, canonical schedule) with Metrics and the debug API handler built over the same config.Interface values plus a second advertising and a monitoring interface (configuration listed eth0, eth1, eth2 when probing after every event, eth2, eth1, eth0 when probing at the end); oracle: every transmitted RA deep-equals the reference RA for the forwarding state at that moment (lifetime 0 when off, final RA 0), log line count = overridden generations, forwarding and misconfiguration gauges and API router_lifetime_seconds track the state per interface; non-trivial = history contains a flip or starts non-forwarding; distinct = distinct case"
 	if r.Replay != nil {
 		var c c04Case
 		if err := json.Unmarshal(r.Replay, &c); err != nil {
@@ -355,7 +370,7 @@ func TestVerifC04(t *testing.T) {
 					if !r.Mine(idx) {
 						continue
 					}
-					c := c04Case{Lifetime: life, Fwd: fwd, Probe: probe, Events: evs}
+					c := c04Case{Lifetime: life, Fwd: fwd, Probe: probe, Events: evs, Reorder: !probe}
 					x, vs := c04Run(t, c)
 					r.Case(c.String(), flips || !fwd)
 					r.Count("states", 1)
